@@ -210,7 +210,14 @@ fn roundtrip<T>(vals: Vec<T>, lim: impl Fn(&T) -> Vec<i64>, chunk: usize) -> Val
 where
     T: Sample<Type = T> + Copy + Default + std::fmt::Debug + PartialEq,
 {
-    rustradio::verif::set_thread_stream_size(4096);
+    roundtrip_sz(vals, lim, chunk, 4096)
+}
+/// `stream`: stream size in bytes (0 = the library default, so that a sink sees very many samples at once)
+fn roundtrip_sz<T>(vals: Vec<T>, lim: impl Fn(&T) -> Vec<i64>, chunk: usize, stream: usize) -> Value
+where
+    T: Sample<Type = T> + Copy + Default + std::fmt::Debug + PartialEq,
+{
+    rustradio::verif::set_thread_stream_size(stream);
     let dir = tempfile::tempdir().unwrap();
     let path = dir.path().join("rt.bin");
     let (ws, rs) = new_stream::<T>();
@@ -291,6 +298,15 @@ pub fn cmd_roundtrip(args: &[String]) -> i32 {
             n += 5;
         }
     }
+    // default-size streams: the sink finds far more than 65536 samples waiting in one call
+    for len in [65537usize, 100000, 300000] {
+        let bits: Vec<u32> = (0..len).map(|i| (i as u32).wrapping_mul(2654435761)).collect();
+        writeln!(o, "{}", roundtrip_sz::<u32>(bits.clone(), |v| limbs_u32(*v), usize::MAX, 0)).unwrap();
+        writeln!(o, "{}", roundtrip_sz::<u8>(bits.iter().map(|b| *b as u8).collect(), |v| vec![*v as i64], usize::MAX, 0)).unwrap();
+        writeln!(o, "{}", roundtrip_sz::<Float>(bits.iter().map(|b| Float::from_bits(*b)).collect(), |v| limbs_u32(v.to_bits()), 90000, 0)).unwrap();
+        n += 3;
+    }
+    rustradio::verif::set_thread_stream_size(0);
     o.flush().unwrap();
     println!("{}", json!({"events": n}));
     0
